@@ -664,3 +664,9 @@ CHECKS["C12"]["manifest_text"] = CHECKS["C12"]["manifest_text"].replace(
 CHECKS["C15"]["theorems"] += [AS + n for n in ["C15_boundary_observer_step", "C15_boundary_observer_write"]]
 CHECKS["C15"]["status"] += ("; an observer of the resource's own boundary that moves the dependency on when the boundary starts loading (repair D29, mode resourcebo): "
     "every step is a machine step of a translated event (C15_boundary_observer_step), the fetch a write starts is one for the value the dependency has afterwards")
+
+# --- round 11: the value TYPE of a memo is fixed in the harness (recorded limit; seeded change C02-zst-memo-never-changes is missed)
+_ZST = (" Limit found by seeded round 11: every memo the harness creates has the value type i64, so code that depends on the value TYPE of a memo "
+        "(e.g. a zero-sized one) is not exercised by the correspondence; the model's plain memos are 'always changed' whatever the value (DESIGN.md R.6, eleventh round).")
+CHECKS["C01"]["manifest_note"] += _ZST
+CHECKS["C02"]["manifest_note"] += _ZST
